@@ -9,6 +9,7 @@ import (
 	"path/filepath"
 	"regexp"
 	"sort"
+	"strconv"
 	"strings"
 	"time"
 
@@ -27,6 +28,7 @@ type Harness struct {
 	Asserts  []string // assert labels that must be evaluated at least once
 	Note     string
 	Solver   string // primary solver for this harness ("" = default)
+	ValSet   bool   // validation compares the set of assertion labels, not their multiset: how many records the harness loops over natively depends on the runtime scheduler
 	Sched    bool   // the harness explores goroutine schedules: a counterexample that the (unsteerable) native scheduler does not reproduce is still reported
 }
 
@@ -146,6 +148,9 @@ func (r *Runner) Run() int {
 	}
 	pool.Primary = envOr("VERIF_SOLVER", "z3-new")
 	pool.ValWant = 2
+	if n, _ := strconv.Atoi(os.Getenv("VERIF_VALWANT")); n > 0 {
+		pool.ValWant = n // validation stress: sample more completed paths per harness
+	}
 	r.Prog.CrossEvery = 40
 	pool.Profile = os.Getenv("VERIF_PROFILE") != ""
 	results := pool.Run(specs)
@@ -319,7 +324,7 @@ func (r *Runner) Run() int {
 		for _, res := range results {
 			h := specHarness[res.Spec]
 			for i, vs := range res.ValSamples {
-				if i < 2 {
+				if i < pool.ValWant {
 					jobs = append(jobs, vjob{h, res.Spec, vs})
 				}
 			}
@@ -572,11 +577,30 @@ func (r *Runner) validate(h *Harness, sp *sym.HarnessSpec, vs *sym.ValSample) st
 	if h.Sched {
 		return "" // assertion order and count depend on the native scheduler
 	}
-	want := append([]string(nil), vs.Asserts...)
+	// monitor: assertions sit behind executor-only observations (goroutine counts, lock monitors,
+	// modelled tickers) and are not evaluated natively: compare the others
+	noMon := func(in []string) []string {
+		var out []string
+		for _, a := range in {
+			if !strings.HasPrefix(a, "monitor:") {
+				out = append(out, a)
+			}
+		}
+		return out
+	}
+	want := noMon(vs.Asserts)
+	asserts = noMon(asserts)
+	if h.ValSet {
+		want, asserts = uniq(want), uniq(asserts)
+	}
 	sort.Strings(want)
 	sort.Strings(asserts)
 	if strings.Join(want, ",") != strings.Join(asserts, ",") {
-		return fmt.Sprintf("assertions evaluated differ: executor %d, native %d", len(want), len(asserts))
+		msg := fmt.Sprintf("assertions evaluated differ: executor %d, native %d", len(want), len(asserts))
+		if os.Getenv("VERIF_VALDUMP") != "" {
+			msg += fmt.Sprintf(" executor-obs=%v native-obs=%v", vs.Obs, obs)
+		}
+		return msg
 	}
 	wo := append([]string(nil), vs.Obs...)
 	sort.Strings(wo)
@@ -585,6 +609,18 @@ func (r *Runner) validate(h *Harness, sp *sym.HarnessSpec, vs *sym.ValSample) st
 		return fmt.Sprintf("observed values differ: executor %v native %v", wo, obs)
 	}
 	return ""
+}
+
+func uniq(in []string) []string {
+	seen := map[string]bool{}
+	var out []string
+	for _, a := range in {
+		if !seen[a] {
+			seen[a] = true
+			out = append(out, a)
+		}
+	}
+	return out
 }
 
 func firstLineWith(s, sub string) string {
